@@ -23,6 +23,9 @@ Decided clauses:
        confirmed-by-reading exception.
   R7.4 cofactor clearing on every hash-to-group / from-uniform path before encoding; the raw
        Elligator map is reachable only from functions that clear the cofactor.
+  R7.12 in the Edwards scalar multiplications bit 255 of the scalar never reaches ge25519_scalarmult / _base (which require
+        a[31] <= 127): on every path - with and without clamping - byte 31 of the working copy is last written with a value whose
+        bit 7 is known zero.
 NOT decided: exactness of field/scalar arithmetic, RFC 9380/9496 values, the accepted set of the
 decoders beyond the checklist.
 """
@@ -416,6 +419,50 @@ def run(ctx, chk):
         chk.ob("R7.6", f, "every other bit of the 32-byte encoding can influence the verdict", not blind,
                detail="(byte, bit) %s never reach the result" % blind[:12] if blind else "", key="R7.6 %s coverage" % name)
     chk.floor("R7.6", "(predicate / decoder, byte, bit) flows analysed", n76, 1536)
+
+    # ---- R7.12 bit 255 of the scalar never reaches the multiplication routines ---------------------------------------------------
+    # ge25519_scalarmult / _base require a[31] <= 127 (radix-16 recoding); the noclamp API documents "n mod 2^255". On every path the
+    # byte 31 of the working copy handed to them was last written with a value whose bit 7 is known to be zero (stores are chased
+    # through reloads of the same address; the clamp helper is inlined).
+    MULS = ("ge25519_scalarmult", "ge25519_scalarmult_base")
+
+    def bit7_zero(p, t, before, depth=0):
+        if depth > 12:
+            return False
+        k = t[0]
+        if k == "c":
+            return not (t[1] & 0x80)
+        if k == "cast":
+            return bit7_zero(p, t[2], before, depth + 1)
+        if k == "bin" and t[1] == "and":
+            return bit7_zero(p, t[2], before, depth + 1) or bit7_zero(p, t[3], before, depth + 1)
+        if k == "bin" and t[1] in ("or", "xor"):
+            return bit7_zero(p, t[2], before, depth + 1) and bit7_zero(p, t[3], before, depth + 1)
+        if k == "load":
+            ld = [e for e in p.events[:before] if e.kind == "load" and e.res == t]
+            if not ld:
+                return False
+            st = [e for e in p.events[:ld[-1].idx] if e.kind == "store" and e.addr == ld[-1].addr]
+            return bool(st) and bit7_zero(p, st[-1].val, st[-1].idx, depth + 1)
+        return False
+    n712 = 0
+    for name in ("_crypto_scalarmult_ed25519", "_crypto_scalarmult_ed25519_base"):
+        f = need(name)
+        for p in cm.paths(prog, f):
+            for e in p.calls(*MULS):
+                arr = e.args[1]
+                top = T.mk_gep(arr, 31, ()) if hasattr(T, "mk_gep") else ("gep", arr, 31, ())
+                st = [w for w in p.events[:e.idx] if w.kind == "store" and w.addr == top and w.size == 1]
+                later_bulk = [w for w in p.events[(st[-1].idx + 1 if st else 0):e.idx]
+                              if w.kind in ("store", "call") and w is not e and cm.writes_through(prog, p, w, T.root(arr)) and
+                              not (w.kind == "store" and T.linear(w.addr)[0] == {T.root(arr): 1})]
+                ok = bool(st) and not later_bulk and bit7_zero(p, st[-1].val, st[-1].idx)
+                n712 += 1
+                chk.ob("R7.12", f, "the scalar handed to %s has bit 255 cleared on this path" % e.callee_name(), ok, loc=f.loc(e.iid),
+                       path=None if ok else p, detail="" if ok else "byte 31 of the working copy is not last written with a value whose bit 7 "
+                       "is zero: the top radix-16 digit can exceed the table and the product is not (n mod 2^255) * P",
+                       key="R7.12 %s top-bit" % name)
+    chk.floor("R7.12", "hand-overs of the scalar to the Edwards multiplication routines", n712, 4)
 
     # public generators write their output only through cofactor-clearing maps or validated addition
     okw = {f.key for f in clearing} | {need("crypto_core_ed25519_add").key}
